@@ -48,6 +48,21 @@ def group(pid, metas):
                     first.append({"obligation": rec.get("obligation"), "kind": rec.get("kind"), "no_input": v.endswith("no-failing-input-found")})
                 except Exception:
                     pass
+            # proof obligations that fail although the patch does not touch the module they belong to are suspicious
+            # (an unstable proof would be a false alarm on the unchanged tree too)
+            touched = {l.split(" b/")[1].strip()[:-3].replace("/", ".") for l in open(f"{d}/patch.diff") if l.startswith("diff --git")}
+            suspicious = []
+            for v in viol:
+                try:
+                    rec = json.load(open(v.split("replay=")[1].split()[0]))
+                except Exception:
+                    continue
+                if rec.get("kind") == "proof":
+                    modname = str(rec.get("obligation", "")).split("::")[0].rsplit(".", 2)[0]
+                    if not any(modname == t or modname.startswith(t + ".") or t.startswith(modname) for t in touched):
+                        suspicious.append(rec.get("obligation"))
+            if suspicious:
+                print("SUSPICIOUS (proof obligation outside the patched modules):", os.path.basename(d), suspicious, flush=True)
             res.append((m, c.returncode, {"exit": c.returncode, "violations": len(viol), "first": first,
                                           "summary": lines[-1][:200] if lines else "", "wall_s": round(time.time() - t0, 1)}))
     finally:
